@@ -221,7 +221,8 @@ class Ctx:
     # ---------------------------------------------------------------- TLC
     def _tlc(self, module, cfg, workers, env, timeout, extra, label, to_file=None):
         metadir = tempfile.mkdtemp(prefix="meta-", dir=self.tmp)
-        cmd = ["java", "-XX:+UseParallelGC", "-Xmx8g", "-Xss64m", "-cp", TLA_JAR, "tlc2.TLC",
+        gc = ["-XX:+UseSerialGC", "-Xmx3g"] if workers == 1 else ["-XX:+UseParallelGC", "-Xmx8g"]
+        cmd = ["java"] + gc + ["-Xss64m", "-cp", TLA_JAR, "tlc2.TLC",
                "-workers", str(workers), "-metadir", metadir, "-noGenerateSpecTE",
                "-config", cfg] + list(extra) + [module]
         e = dict(os.environ)
